@@ -114,13 +114,20 @@ func funcSubStr(kv KVPair, args []Expression, ctx *ExecuteCtx) (any, error) {
 	if err != nil {
 		return nil, err
 	}
-	length := int(toInt(rarg, 0))
-	vlen := len(val)
-	if start > vlen-1 {
-		return "", nil
+	end := int(toInt(rarg, 0))
+	return subString(val, start, end), nil
+}
+
+// subString returns val[start:end] with both positions clamped to the text.
+func subString(val string, start, end int) string {
+	if start < 0 {
+		start = 0
 	}
-	length = min(length, vlen-start)
-	return val[start:length], nil
+	end = min(end, len(val))
+	if start >= end {
+		return ""
+	}
+	return val[start:end]
 }
 
 func min(a, b int) int {
